@@ -1123,6 +1123,11 @@ def opaque_attr(ex, st, v: Opaque, attr):
         yield st, pure_result(ex, st, f"{v.kind}.{attr}", "u:Any", [v])
         return
     kind, payload = spec
+    if kind == "field" and isinstance(payload, str) and payload.strip().startswith("seq["):
+        from .contracts import pure_result
+
+        yield st, pure_result(ex, st, f"{v.kind}.{attr}", payload.strip(), [v])  # a list-valued field: a function of the object
+        return
     if kind == "field":
         sort = parse_sort(payload)
         f = ex.uf(f"{v.kind}.{attr}", z3sort(("u", v.kind)), z3sort(sort))
